@@ -332,6 +332,13 @@ def cat_arms(ctx, rule="CAT-ARMS"):
     if tg is not None:
         blks = {b for b in dom if tg in dom[b]}
         cls = [c for b, c in _cs(prog, f) if b in blks]
+        # predicates handed over as plain functions (`starts_with(is_identifier_start)`, `all(is_identifier_char)`) count like closures
+        for b_, t_ in f.calls():
+            if b_ in blks:
+                for a_ in t_["args"]:
+                    m_ = re.fullmatch(r"fn:(.*)", S.val(a_))
+                    if m_ and ("msi::" + m_.group(1)) in prog.by_name:
+                        cls.append(prog.fn("msi::" + m_.group(1)))
         names = sorted({cname(prog, t).rsplit("::", 1)[-1] for c in cls for b, t in c.calls() if "<impl char>::" in cname(prog, t)})
         consts = set()
         for c in cls:
